@@ -6,6 +6,7 @@ require (
 	github.com/google/uuid v1.3.1
 	github.com/lindb/common v0.0.6
 	github.com/lindb/lindb v0.0.0
+	github.com/lindb/roaring v1.2.1
 	go.uber.org/zap v1.21.0
 	google.golang.org/grpc v1.59.0
 )
@@ -27,7 +28,6 @@ require (
 	github.com/json-iterator/go v1.1.12 // indirect
 	github.com/klauspost/compress v1.17.1 // indirect
 	github.com/klauspost/cpuid v1.3.1 // indirect
-	github.com/lindb/roaring v1.2.1 // indirect
 	github.com/lithammer/go-jump-consistent-hash v1.0.2 // indirect
 	github.com/mattn/go-isatty v0.0.19 // indirect
 	github.com/mattn/go-runewidth v0.0.14 // indirect
@@ -54,3 +54,5 @@ require (
 )
 
 replace github.com/lindb/lindb => /repo
+
+replace github.com/hashicorp/golang-lru/v2 => ../.build/third_party/golang-lru
